@@ -89,6 +89,9 @@ func initProperties() {
 				use("ERRSWALLOW", "errors propagate", inPkgs("conv/j2t")),
 				use("KINDEXH", "type switch exhaustive", inPkgs("conv/j2t")),
 				use("ARGSWAP", "arguments in order", inPkgs("conv/j2t")),
+				use("POOLESCAPE", "result copied out of the pooled buffer", inPkgs("conv/j2t")),
+				use("CHDRAGREE", "flag/trap constants = C header", nil),
+				use("REQAFFINITY", "requiredness <-> option", inPkgs("conv/j2t")),
 			)},
 		{ID: "C03", Title: "Thrift->JSON conversion emits valid JSON denoting exactly the value",
 			Decides: "balanced `{}`/`[]` on every success path of the t2j walkers (JSONPAIR — a necessary condition of `never malformed JSON with a nil error`), member keys come from one FieldDescriptor accessor everywhere (KEYSRC), thrift type switches are exhaustive (KINDEXH), unknown fields are an error exactly when disallowed and are otherwise skipped (NEGPOLARITY, UNKNOWNSKIP), no error dropped (DROPERR), loops consume (LOOPPROGRESS).",
@@ -192,6 +195,9 @@ func initProperties() {
 				use("ERRSWALLOW", "errors propagate", inPkgs("conv/j2p")),
 				use("NEGPOLARITY", "unknown handling", inPkgs("conv/j2p")),
 				use("NILLOOKUP", "lookups checked", inPkgs("conv/j2p")),
+				use("UNKNOWNSKIP", "disallow option honoured at every lookup", inPkgs("conv/j2p")),
+				use("POOLESCAPE", "result copied out of the pooled buffer", inPkgs("conv/j2p")),
+				use("POOLRESET", "pooled visitor state fully reset", inPkgs("conv/j2p")),
 			)},
 		{ID: "C10", Title: "Protobuf edits and DOM marshalling keep the message well-formed and exact",
 			Decides: "inserted tags carry a real wire type and map entries key=1/value=2 (TAGTYPE, MAPTAG), speculative lengths are finished on every path of PathNode.marshal (SPECLENPAIR), name->number translation is nil-checked (NILLOOKUP), insertion/tag errors propagate (DROPERR), the delete locator has a not-found exit (NOTFOUNDEXIT).",
@@ -285,6 +291,8 @@ func initProperties() {
 				use("FLAGSYNC", "HTTPConv enables mapping", nil),
 				use("ARGSWAP", "options in order", inPkgs("conv/j2t", "conv/t2j", "thrift/annotation")),
 				use("DROPERR", "errors propagate", inPkgs("thrift/annotation", "conv/t2j", "conv/j2t", "http")),
+				use("POOLESCAPE", "response body/result copied out of the pooled buffer", funcHas("HTTPConv", "thrift/annotation")),
+				use("REQAFFINITY", "requiredness <-> option in http fallback", inPkgs("conv/j2t", "conv/t2j")),
 			)},
 		{ID: "C18", Title: "Native and portable implementations agree; text encoders are exact", QuickP: true,
 			Decides: "every native stub is bound in all three SIMD flavours with identical key sets and each flavour loads its own text (STUBTABLE), native and portable files are selected by exactly complementary build constraints (TAGPARTITION), the portable converter reads the options the native flags carry (OPTAGREE) and rejects kind mismatches on every path (CASEEXIT), native skip failure is an error like Go skip (NATIVERET).",
